@@ -36,3 +36,254 @@ Proof.
   intros. unfold record_text, field, raw_literal, quote.
   repeat ((rewrite <- app_assoc) || (progress cbn [app K codes_of_string])). reflexivity.
 Qed.
+
+Definition piece (R : item -> text) (cl : text) (n k : Z) (x : item) : text :=
+  if negb (k =? n) then R x ++ [44] else R x ++ cl.
+Fixpoint pieces (R : item -> text) (cl : text) (n k : Z) (l : list item) : list text :=
+  match l with [] => [] | x :: t => piece R cl n k x :: pieces R cl n (k + 1) t end.
+Fixpoint recs_text (R : item -> text) (cl : text) (l : list item) : text :=
+  match l with
+  | [] => []
+  | [x] => R x ++ cl
+  | x :: t => R x ++ [44] ++ recs_text R cl t
+  end.
+
+Lemma pieces_concat R cl n : forall l k,
+  k + Z.of_nat (length l) = n + 1 -> concat (pieces R cl n k l) = recs_text R cl l.
+Proof.
+  induction l as [|x t IH]; intros k H; [reflexivity|].
+  cbn [pieces concat]. destruct t as [|y t].
+  - cbn [length] in H. unfold piece. replace (k =? n) with true by (symmetry; apply Z.eqb_eq; lia).
+    cbn. now rewrite app_nil_r.
+  - rewrite IH by (cbn [length] in *; lia). unfold piece.
+    replace (k =? n) with false by (symmetry; apply Z.eqb_neq; cbn [length] in H; lia).
+    cbn [negb recs_text]. now rewrite <- app_assoc.
+Qed.
+
+Lemma pieces_length R cl n : forall l k, length (pieces R cl n k l) = length l.
+Proof. induction l; intros; cbn [pieces length]; [reflexivity|now rewrite IHl]. Qed.
+
+Lemma recs_loop_spec (F : list text -> Z * item -> list text) R cl n :
+  (forall st k x, F st (k, x) = st ++ [piece R cl n k x]) ->
+  forall l k st, fold_left F (enumerate_from k l) st = st ++ pieces R cl n k l.
+Proof.
+  intros HF. induction l as [|x t IH]; intros k st; cbn [enumerate_from fold_left pieces].
+  - now rewrite app_nil_r.
+  - rewrite HF, IH, <- app_assoc. reflexivity.
+Qed.
+
+Section Bridge.
+Variable fmt : Z -> str.
+Variable dumps_md : json -> str.
+
+Lemma inner_loop_spec (F : list text -> Z * Z -> list text) (i : nat) :
+  (forall st j v, 0 <= j ->
+     F st (j, v) = if negb (v =? 0) then st ++ [triple_text fmt (i, Z.to_nat j, v)] else st) ->
+  forall r j st, fold_left F (enumerate_from (Z.of_nat j) r) st
+                 = st ++ map (triple_text fmt) (row_triples i j r).
+Proof.
+  intros HF. induction r as [|v t IH]; intros j st; cbn [enumerate_from fold_left row_triples map].
+  - now rewrite app_nil_r.
+  - rewrite HF by lia. rewrite Nat2Z.id. replace (Z.of_nat j + 1) with (Z.of_nat (S j)) by lia.
+    rewrite IH. destruct (v =? 0); cbn [negb map]; [reflexivity|now rewrite <- app_assoc].
+Qed.
+
+Definition built_of (k : Z) (x : item) : list text :=
+  map (triple_text fmt) (row_triples (Z.to_nat k) 0 (it_vals x)).
+
+Lemma obs_loop_spec (F : (list text * list text * bool) -> Z * item -> (list text * list text * bool)) R cl n :
+  (forall rows data hw k x, 0 <= k -> F (rows, data, hw) (k, x) =
+     (rows ++ [piece R cl n k x],
+      if list_empty (built_of k x) then data
+      else (if hw then data ++ [[44]] else data) ++ [join [44] (built_of k x)],
+      if list_empty (built_of k x) then hw else true)) ->
+  forall m recs k rows data hw, length m = length recs ->
+   fst (fst (fold_left F (enumerate_from (Z.of_nat k) (mk_items m recs)) (rows, data, hw)))
+     = rows ++ pieces R cl n (Z.of_nat k) (mk_items m recs)
+   /\ concat (snd (fst (fold_left F (enumerate_from (Z.of_nat k) (mk_items m recs)) (rows, data, hw))))
+     = concat data ++ data_rows fmt k m hw.
+Proof.
+  intros HF. induction m as [|r m IH]; intros [|rc recs] k rows data hw H; try discriminate H.
+  - cbn. now rewrite !app_nil_r.
+  - unfold mk_items. cbn [combine map enumerate_from fold_left]. fold (mk_items m recs).
+    rewrite HF by lia. replace (Z.of_nat k + 1) with (Z.of_nat (S k)) by lia.
+    cbn [length] in H.
+    match goal with |- context [fold_left F _ (?a, ?b, ?c)] =>
+      destruct (IH recs (S k) a b c ltac:(lia)) as [A B] end.
+    split.
+    + rewrite A. cbn [pieces]. replace (Z.of_nat k + 1) with (Z.of_nat (S k)) by lia.
+      now rewrite <- app_assoc.
+    + rewrite B. unfold built_of. cbn [it_vals fst snd]. rewrite Nat2Z.id. cbn [data_rows].
+      destruct (map (triple_text fmt) (row_triples k 0 r)) as [|b0 bs]; cbn [list_empty]; [reflexivity|].
+      destruct hw; rewrite !concat_app; cbn [concat]; rewrite ?app_nil_r, <- ?app_assoc; reflexivity.
+Qed.
+End Bridge.
+
+Lemma show_int_nonneg : forall z, 0 <= z -> show_int z = show_nat (Z.to_nat z).
+Proof. intros z H. unfold show_int. destruct (Z.ltb_spec z 0); [lia|reflexivity]. Qed.
+
+Lemma mk_items_length : forall (vals : list (list Z)) (recs : list (text * json)),
+  length vals = length recs -> length (mk_items vals recs) = length recs.
+Proof. intros. unfold mk_items. rewrite map_length, combine_length. lia. Qed.
+
+Section Main.
+Variable fmt : Z -> str.
+Variable dumps_md : json -> str.
+
+Definition Rrec (x : item) : text := record_text dumps_md (it_id x) (it_md x).
+
+Lemma recs_text_cons2 R cl a b t :
+  recs_text R cl (a :: b :: t) = R a ++ [44] ++ recs_text R cl (b :: t).
+Proof. reflexivity. Qed.
+Lemma records_text_cons2 a b t :
+  records_text dumps_md (a :: b :: t)
+  = record_text dumps_md (fst a) (snd a) ++ K "," ++ records_text dumps_md (b :: t).
+Proof. reflexivity. Qed.
+
+Lemma recs_text_items suf : forall recs vals, length vals = length recs -> recs <> [] ->
+  recs_text Rrec ([93] ++ suf) (mk_items vals recs) = records_text dumps_md recs ++ suf.
+Proof.
+  induction recs as [|rc recs IH]; intros vals H Hne; [congruence|].
+  destruct vals as [|v vals]; [discriminate H|]. destruct recs as [|rc2 recs].
+  - destruct vals; [|discriminate H]. unfold mk_items. cbn [combine map recs_text records_text].
+    unfold Rrec. cbn [it_id it_md fst snd]. rewrite <- app_assoc. reflexivity.
+  - destruct vals as [|v2 vals]; [discriminate H|].
+    assert (IH' := IH (v2 :: vals) ltac:(cbn [length] in *; lia) ltac:(discriminate)).
+    unfold mk_items in *. cbn [combine map] in *.
+    rewrite recs_text_cons2, records_text_cons2. match goal with |- _ ++ _ ++ ?X = _ =>
+      replace X with (records_text dumps_md (rc2 :: recs) ++ suf) by (symmetry; exact IH') end. unfold Rrec at 1. cbn [it_id it_md fst snd]. rewrite <- !app_assoc. reflexivity.
+Qed.
+
+Lemma axis_text hdr1 emp cl hdr suf ids md vals :
+  hdr1 = hdr ++ [91] -> emp = hdr ++ [91;93] ++ suf -> cl = [93] ++ suf ->
+  length vals = length ids -> md_len md (length ids) ->
+  join [] (if Z.of_nat (length ([hdr1] ++ pieces Rrec cl (Z.of_nat (length ids) - 1) 0
+                                   (mk_items vals (combine ids (md_list (length ids) md))))) =? 1
+           then [emp]
+           else [hdr1] ++ pieces Rrec cl (Z.of_nat (length ids) - 1) 0
+                                   (mk_items vals (combine ids (md_list (length ids) md))))
+  = hdr ++ axis_value dumps_md ids md ++ suf.
+Proof.
+  intros -> -> -> Hv Hmd.
+  assert (Hr : length (combine ids (md_list (length ids) md)) = length ids).
+  { rewrite combine_length. destruct md as [l|]; cbn [md_list md_len] in *; [|rewrite repeat_length]; lia. }
+  unfold axis_value, axis_recs.
+  remember (combine ids (md_list (length ids) md)) as recs eqn:Er.
+  destruct ids as [|i ids].
+  - destruct recs; [|discriminate Hr]. destruct vals; [|discriminate Hv]. cbn. rewrite ?app_nil_r. reflexivity.
+  - destruct recs as [|rc recs]; [discriminate Hr|]. destruct vals as [|v vals]; [discriminate Hv|].
+    assert (Hl : length (mk_items (v :: vals) (rc :: recs)) = length (rc :: recs))
+      by (apply mk_items_length; congruence).
+    remember (mk_items (v :: vals) (rc :: recs)) as items eqn:Ei.
+    assert (Hc : (Z.of_nat (length ([hdr ++ [91]] ++ pieces Rrec ([93] ++ suf) (Z.of_nat (length (i :: ids)) - 1) 0 items)) =? 1) = false).
+    { rewrite app_length, pieces_length, Hl. cbn [length]. apply Z.eqb_neq. lia. }
+    rewrite Hc. rewrite join_nil_concat, concat_app. cbn [concat]. rewrite app_nil_r.
+    rewrite pieces_concat by (rewrite Hl, Hr; cbn [length]; lia).
+    rewrite Ei, recs_text_items by (congruence || discriminate).
+    transitivity (hdr ++ K "[" ++ records_text dumps_md (rc :: recs) ++ suf);
+      [rewrite <- !app_assoc; reflexivity | rewrite Er; reflexivity].
+Qed.
+End Main.
+
+Lemma obs_loop_spec0 fmt (F : (list text * list text * bool) -> Z * item -> (list text * list text * bool)) R cl n :
+  (forall rows data hw k x, 0 <= k -> F (rows, data, hw) (k, x) =
+     (rows ++ [piece R cl n k x],
+      if list_empty (built_of fmt k x) then data
+      else (if hw then data ++ [[44]] else data) ++ [join [44] (built_of fmt k x)],
+      if list_empty (built_of fmt k x) then hw else true)) ->
+  forall m recs rows data hw, length m = length recs ->
+   fst (fst (fold_left F (enumerate_from 0 (mk_items m recs)) (rows, data, hw)))
+     = rows ++ pieces R cl n 0 (mk_items m recs)
+   /\ concat (snd (fst (fold_left F (enumerate_from 0 (mk_items m recs)) (rows, data, hw))))
+     = concat data ++ data_rows fmt 0 m hw.
+Proof. intros HF m recs rows data hw H. exact (obs_loop_spec fmt F R cl n HF m recs 0%nat rows data hw H). Qed.
+
+Lemma inner_loop_spec0 fmt (F : list text -> Z * Z -> list text) (i : nat) :
+  (forall st j v, 0 <= j ->
+     F st (j, v) = if negb (v =? 0) then st ++ [triple_text fmt (i, Z.to_nat j, v)] else st) ->
+  forall r st, fold_left F (enumerate_from 0 r) st = st ++ map (triple_text fmt) (row_triples i 0 r).
+Proof. intros HF r st. exact (inner_loop_spec fmt F i HF r 0%nat st). Qed.
+
+Lemma triple_eq {A B C} (a a' : A) (b b' : B) (c c' : C) :
+  a = a' -> b = b' -> c = c' -> (a, b, c) = (a', b', c').
+Proof. now intros -> -> ->. Qed.
+
+Ltac norm_text := repeat ((rewrite <- app_assoc) || (progress cbn [app])).
+
+(* T16: the string Table.to_json returns is the text of Model/JsonText.v.  Hypotheses: the
+   invariants the constructor establishes (one matrix row per observation ID, metadata lists as
+   long as their axis). *)
+Theorem to_json_text_is_source_partial : forall fmt dumps_md c tid now,
+  length (j_mat c) = length (j_oids c) ->
+  md_len (j_omd c) (length (j_oids c)) -> md_len (j_smd c) (length (j_sids c)) ->
+  gen_to_json fmt dumps_md c tid now (str_of_json (j_genby c)) (Some (str_of_json (j_date c)))
+  = ROk (to_json_text fmt dumps_md c tid).
+Proof.
+  intros fmt dumps_md c tid now Hm Ho Hs. unfold gen_to_json. cbv zeta.
+  cbn [text_isstr negb rbind dt_isoformat str_of_tid tbl_shape].
+  unfold enumerate_z, iter_obs, iter_samp, ids_obs, ids_samp, str_join.
+  assert (Hrec : length (j_mat c) = length (combine (j_oids c) (md_list (length (j_oids c)) (j_omd c)))).
+  { rewrite combine_length. destruct (j_omd c); cbn [md_list md_len] in *; [|rewrite repeat_length]; lia. }
+  (* the observation loop *)
+  match goal with |- context [fold_left ?F (enumerate_from 0 (mk_items (j_mat c) ?recs)) ?init] =>
+    assert (HF : forall rows data hw k x, 0 <= k -> F (rows, data, hw) (k, x) =
+      (rows ++ [piece (Rrec dumps_md) [93;44] (Z.of_nat (length (j_oids c)) - 1) k x],
+       if list_empty (built_of fmt k x) then data
+       else (if hw then data ++ [[44]] else data) ++ [join [44] (built_of fmt k x)],
+       if list_empty (built_of fmt k x) then hw else true));
+    [|remember (fold_left F (enumerate_from 0 (mk_items (j_mat c) recs)) init) as res eqn:EF;
+      assert (AB : fst (fst res) = [[34;114;111;119;115;34;58;32;91]] ++ pieces (Rrec dumps_md) [93;44] (Z.of_nat (length (j_oids c)) - 1) 0 (mk_items (j_mat c) recs)
+                   /\ concat (snd (fst res)) = concat [[34;100;97;116;97;34;58;32;91]] ++ data_rows fmt 0 (j_mat c) false)
+        by (subst res; exact (obs_loop_spec0 fmt F _ _ _ HF (j_mat c) recs _ _ false Hrec));
+      clear EF; destruct res as [[rows data] hw]; destruct AB as [A B]]
+  end.
+  { intros rows data hw k x Hk. cbv beta iota.
+    rewrite (inner_loop_spec0 fmt _ (Z.to_nat k)).
+    2:{ intros st j v Hj. cbv beta iota. unfold float_eqb, float_of_float, float_zero, triple_text.
+        rewrite !show_int_nonneg by lia. reflexivity. }
+    cbn [app]. fold (built_of fmt k x).
+    destruct (list_empty (built_of fmt k x)); cbn [negb]; apply triple_eq.
+    all: try reflexivity.
+    all: unfold piece, Rrec; rewrite record_text_unfold; destruct (k =? Z.of_nat (length (j_oids c)) - 1); cbn [negb];
+      norm_text; reflexivity. }
+  cbn [fst snd] in A, B. subst rows. clear HF.
+  (* the sample loop *)
+  match goal with |- context [fold_left ?F (enumerate_from 0 (mk_items ?vals (combine (j_sids c) ?mds))) ?init] =>
+    assert (HF : forall st k x, F st (k, x) = st ++ [piece (Rrec dumps_md) [93] (Z.of_nat (length (j_sids c)) - 1) k x]);
+    [|rewrite !(recs_loop_spec F _ _ _ HF); clear HF]
+  end.
+  { intros st k x. cbv beta iota. unfold piece, Rrec. rewrite record_text_unfold.
+    destruct (k =? Z.of_nat (length (j_sids c)) - 1); cbn [negb]; norm_text; reflexivity. }
+  rewrite !of_nat_gtb. unfold to_json_text, element_type.
+  destruct ((0 <? jnobs c)%nat && (0 <? jnsamp c)%nat); cbn [py_isint py_isfloat py_isstr rbind].
+  all: match goal with |- context [join [] (if ?C then [[34;114;111;119;115;34;58;32;91;93;44]] else ?L)] =>
+    replace (join [] (if C then [[34;114;111;119;115;34;58;32;91;93;44]] else L))
+      with ([34;114;111;119;115;34;58;32] ++ axis_value dumps_md (j_oids c) (j_omd c) ++ [44])
+      by (symmetry; exact (axis_text dumps_md [34;114;111;119;115;34;58;32;91] [34;114;111;119;115;34;58;32;91;93;44] [93;44] [34;114;111;119;115;34;58;32] [44] (j_oids c) (j_omd c) (j_mat c) eq_refl eq_refl eq_refl Hm Ho))
+  end.
+  all: match goal with |- context [join [] (if ?C then [[34;99;111;108;117;109;110;115;34;58;32;91;93]] else ?L)] =>
+    replace (join [] (if C then [[34;99;111;108;117;109;110;115;34;58;32;91;93]] else L))
+      with ([34;99;111;108;117;109;110;115;34;58;32] ++ axis_value dumps_md (j_sids c) (j_smd c) ++ [])
+      by (symmetry; refine (axis_text dumps_md [34;99;111;108;117;109;110;115;34;58;32;91] [34;99;111;108;117;109;110;115;34;58;32;91;93] [93] [34;99;111;108;117;109;110;115;34;58;32] [] (j_sids c) (j_smd c) _ eq_refl eq_refl eq_refl _ Hs);
+          now rewrite map_length, seq_length)
+  end.
+  all: rewrite (join_nil_concat (data ++ _)), concat_app, B; clear B.
+  all: unfold type_value, tbl_type, rows_value, columns_value, dt_isoformat, str_of_tid.
+  all: rewrite !show_int_of_nat.
+  all: f_equal; destruct (j_type c); unfold data_value, field, raw_literal, quote; cbn [join concat];
+    rewrite ?app_nil_r; norm_text; reflexivity.
+Qed.
+Print Assumptions to_json_text_is_source_partial.
+
+(* the hypotheses are satisfiable (the 1 x 2 witness table of JsonDocProofs) *)
+Example to_json_text_is_source_partial_witness :
+  length (j_mat ex_table) = length (j_oids ex_table)
+  /\ md_len (j_omd ex_table) (length (j_oids ex_table)) /\ md_len (j_smd ex_table) (length (j_sids ex_table)).
+Proof. vm_compute. repeat split. Qed.
+
+
+(* creation_date=None: the date written is datetime.now().isoformat() *)
+Theorem to_json_default_date_is_source : forall fmt dumps_md c tid now g,
+  gen_to_json fmt dumps_md c tid now g None = gen_to_json fmt dumps_md c tid now g (Some now).
+Proof. reflexivity. Qed.
+Print Assumptions to_json_default_date_is_source.
